@@ -1,4 +1,4 @@
-package vfe2e
+package vfkit
 
 import (
 	"crypto/ecdsa"
@@ -91,6 +91,6 @@ func (ca *CA) Pool() *x509.CertPool {
 	return p
 }
 
-func serverTLS(l *Leaf) *tls.Config {
+func ServerTLS(l *Leaf) *tls.Config {
 	return &tls.Config{Certificates: []tls.Certificate{l.TLS}}
 }
